@@ -92,7 +92,7 @@ func (lr *laRun) finish(res *laResult, extra map[string]interface{}) int {
 		return 2
 	}
 	known := loadKnown()
-	replayBase := filepath.Join("/verif/replays", prop)
+	replayBase := filepath.Join(layera.Root(), "replays", prop)
 	os.RemoveAll(replayBase)
 	var total engine.Stats
 	total.Unsupported = map[string]int{}
@@ -346,7 +346,7 @@ func kernelSummary(opt *Options, prop string, lr *laRun, res *laResult) (int, ma
 					fmt.Printf("KNOWN-FINDING: property=%s %s (%d paths)\n", prop, k.What, st.Failed)
 					continue
 				}
-				dir := filepath.Join("/verif/replays", prop, fmt.Sprintf("case%02d", ci))
+				dir := filepath.Join(layera.Root(), "replays", prop, fmt.Sprintf("case%02d", ci))
 				ci++
 				res.Session.WriteReplay(st.First, dir)
 				ok, outp := layera.RunReplay(dir)
@@ -362,7 +362,7 @@ func kernelSummary(opt *Options, prop string, lr *laRun, res *laResult) (int, ma
 		}
 		for id, st := range kr.Panics {
 			ks["panic:"+id] = st.Failed
-			dir := filepath.Join("/verif/replays", prop, fmt.Sprintf("case%02d", ci))
+			dir := filepath.Join(layera.Root(), "replays", prop, fmt.Sprintf("case%02d", ci))
 			ci++
 			res.Session.WriteReplay(st.First, dir)
 			ok, _ := layera.RunReplay(dir)
